@@ -20,6 +20,8 @@ type PropDef struct {
 	// Valid (optional): the minimiser only keeps simplified scenarios for which it holds
 	// (invariants the generator guarantees and the oracle relies on)
 	Valid func(sc *Scenario) bool
+	// JudgeLoadErr: a rejected configuration is part of what the property is about
+	JudgeLoadErr bool
 }
 
 var Props = map[string]*PropDef{}
@@ -897,6 +899,21 @@ func init() {
 				}
 			}
 			return n >= 2
+		},
+	})
+}
+
+func init() {
+	register(&PropDef{ID: "C07", Rule: "dependency graphs over 2-6 processes (forward edges with density 15-50 %, in 30 % of the scenarios 1-2 back edges or a self-dependency, in 10 % a dependency on an undefined process), disabled (closed under dependents) / foreground / replicated leaves, namespaces per connected component with a namespace selection, requested subsets with and without no-deps; the real loader, NewProjectRunner and Run() on the simulated kernel with seeded map iteration orders; load result, dependency order, launched commands and reported states compared with the graph; non-trivial = a configuration was rejected or at least one command launched; distinct = distinct scenario",
+		Gen: func(seed uint64, idx int, tier string) *Scenario {
+			sc, r := baseScenario("C07", seed)
+			genC07(r, sc, tier)
+			return sc
+		},
+		Check:        checkC07,
+		JudgeLoadErr: true,
+		NonTrivial: func(sc *Scenario, res *RunResult, t *Truth) bool {
+			return res.LoadErr != "" || len(t.Insts) > 0
 		},
 	})
 }
